@@ -278,8 +278,9 @@ pub fn catch<R>(f: impl FnOnce() -> R) -> Result<R, String> {
 /// digits inside the message squashed.
 pub fn panic_signature(msg: &str) -> String {
   let (m, loc) = msg.rsplit_once(" @ ").unwrap_or((msg, ""));
+  // path relative to the repository root, wherever the tree is checked out
+  let loc = loc.find("crates/").map(|i| &loc[i..]).unwrap_or(loc);
   let loc = loc
-    .trim_start_matches("/repo/")
     .rsplit_once(':')
     .map(|(f, _)| f)
     .unwrap_or(loc);
